@@ -562,6 +562,14 @@ func (tdsChan *Channel) sendPackets(ctx context.Context, onlyFull bool) error {
 		// All packets of the message were exhausted and have been sent
 		// without the EOM status - terminate the message with an empty
 		// packet.
+		select {
+		case <-ctx.Done():
+			return fmt.Errorf("passed context is closed: %w", ctx.Err())
+		case <-tdsChan.tdsConn.ctx.Done():
+			return fmt.Errorf("connection context is closed: %w", tdsChan.tdsConn.ctx.Err())
+		default:
+		}
+
 		eom := NewPacket(PacketHeaderSize)
 		if err := tdsChan.sendPacket(eom); err != nil {
 			return fmt.Errorf("error sending packet %s: %w", eom, err)
